@@ -1,6 +1,6 @@
 SPECIFICATION Spec
 CONSTANTS
-  MaxOps = 5
+  MaxOps = 4
   MaxLen = 7
   MaxSeats = 3
   Nodes = {1, 2}
